@@ -6,10 +6,12 @@ package main
 // Phase 2 (sharded by state) applies, in every such state, the full menu.
 
 import (
+	"bytes"
 	"fmt"
 
 	"cosmossdk.io/math"
 	sdk "github.com/cosmos/cosmos-sdk/types"
+	sdkbech32 "github.com/cosmos/cosmos-sdk/types/bech32"
 
 	cctptypes "github.com/circlefin/noble-cctp/x/cctp/types"
 )
@@ -347,7 +349,15 @@ func c11Invalid() []string {
 	if err != nil {
 		panic(err)
 	}
-	return []string{"", "garbage", wrong, string(bad), valoper}
+	emptyPayload, _ := sdk.Bech32ifyAddressBytes(Bech32Prefix, []byte{}) // valid prefix and checksum, no address bytes
+	if emptyPayload == "" {
+		emptyPayload = "noble1" // Bech32ifyAddressBytes refuses empty input; build the string directly
+		if s, err := bech32Encode(Bech32Prefix, []byte{}); err == nil {
+			emptyPayload = s
+		}
+	}
+	huge, _ := bech32Encode(Bech32Prefix, bytes.Repeat([]byte{7}, 300)) // longer than any address the SDK accepts
+	return []string{"", "garbage", wrong, string(bad), valoper, emptyPayload, huge}
 }
 
 // unrelatedTxs: one transaction of every non-role kind (valid parameters).
@@ -440,4 +450,9 @@ func c11Phase2(r *Run, scn Scenario, U []Account, states []*Node, known map[stri
 			}
 		}
 	}
+}
+
+
+func bech32Encode(prefix string, data []byte) (string, error) {
+	return sdkbech32.ConvertAndEncode(prefix, data)
 }
